@@ -33,6 +33,14 @@ structure Out where
   pviol : Option String := none
 
 def World.step (w : World) (t : List String) (implObs : String) : World × Out :=
+  -- `tick n`: n ledgers close, fewer than any persistent or instance entry lives (the harness keeps the total per
+  -- scenario below that): no modelled state depends on it. The token worlds move the ledger themselves (`time`).
+  if t.head? = some "tick" then
+    match w with
+    | .tk _ => (w, ⟨"parse-error:tick", "parse-error", Option.none⟩)
+    | .none => (w, ⟨"parse-error:no-scenario", "parse-error", Option.none⟩)
+    | _ => (w, ⟨"ok", "ok", Option.none⟩)
+  else
   match w with
   | .none => (w, ⟨"parse-error:no-scenario", "parse-error", Option.none⟩)
   | .gw s => let (s', o) := Cgp.Drive.Gw.step s t; (.gw s', ⟨o.obs, o.kind, Option.none⟩)
